@@ -302,6 +302,8 @@ def check_must(prog, res, rule, fname, required, success="zero", file_hint=None,
                 is_succ = True
             elif forbid_unknown:
                 missing.setdefault("return value not classifiable", []).append(line)
+            else:
+                is_succ = True     # value unknown: it may be the success value
             facts = frozenset(set(facts) | extra)
         if not is_succ:
             continue
